@@ -443,7 +443,7 @@ def cases(tier, what="forward"):
         args = {"stride": sp(s, 0), "padding": sp(p, 1), "dilation": sp(d, 2)}
         ncs = [(1, 1, 1), (2, 2, 2)] if fw else ([(2, 2, 1)] if n % 2 else [(1, 1, 2)])
         for (N, Ci, Co) in ncs:
-            bias = (n + N) % 2 == 0
+            bias = ((n + N) % 2 == 0) if fw else ((n // 2) % 2 == 0)     # (n + N) is always odd on the gradient lattice's (N, n) pairs
             shp = [(N, Ci, H, W), (Co, Ci) + k] + ([(Co,)] if bias else [])
             add("conv2d", shp, dict(args))
             if bias and n % 3 == 0:
